@@ -7,12 +7,12 @@
    - action ANewPark - the Park of a fresh Blocker), its Cancel, the generator parameter, any number of unparkers,
    cancellers and timer entries, the clock; one transition per shared-memory access of src/park.rs, the cancelled
    short-cut of yield_with, Cancel::cancel / set_co, the timer callback.  [ReachF] = reachable with the code as it
-   is in /repo ([step true true]); the schedule is arbitrary, so every theorem holds for every client program
+   is in /repo ([step true true true]: the repairs of F8, F12 and F31 are in); the schedule is arbitrary, so every theorem holds for every client program
    (any sequence of park / park_timeout / unpark / cancel on the handle) and every interleaving.
    State components used below: [pstate] = Park.state (the token), [slot] = wait_co holds the coroutine,
    [kp] = control point of the kernel half (Park::subscribe), [up] = control point of the user half
    (Park::park_timeout), [un i] / [cn i] / [tm i] = unparker / canceller / timer entry i, [cbit] = cancel bit,
-   [hnd] = timeout_handle.  Ghost: [holder], [wsrc] (who took the coroutine), [tok0], [ctok], [ncall], [tainted].
+   [hnd] = timeout_handle, [cco] = Cancel.co.  Ghost: [holder], [wsrc] (who took the coroutine), [tok0], [ctok], [ncall].
 
    What is NOT proved (see props/C02.json "assumptions"): liveness proper.  "Returns instead of blocking" is
    proved in the safety form of DESIGN 2.2: in no reachable state is the call stuck while a reason to wake it
@@ -104,7 +104,7 @@ Print Assumptions C02_unparker_takes.
    (it then resumes it: KSgoff/KFgoff true -> KSrun/KFrun) *)
 Theorem C02_kernel_self_wake :
   forall s, krecheck (kp s) = true -> slot s = true -> pstate s = true ->
-  exists n s', (n <= 3)%nat /\ run true true s (repeat AK n) = Some s' /\ slot s' = false /\ kholds (kp s') = true.
+  exists n s', (n <= 3)%nat /\ run true true true s (repeat AK n) = Some s' /\ slot s' = false /\ kholds (kp s') = true.
 Proof. exact kernel_self_wake. Qed.
 Print Assumptions C02_kernel_self_wake.
 
@@ -173,43 +173,56 @@ Theorem C02_park_past_deadline_not_stuck :
 Proof. exact park_past_deadline_not_stuck. Qed.
 Print Assumptions C02_park_past_deadline_not_stuck.
 
-(* before the repair of F8 (subscribe without the deadline self-check: [step false true]) the time-out is lost *)
+(* before the repair of F8 (subscribe without the deadline self-check: [step false true true]) the time-out is lost *)
 Theorem C02_quiescent_no_deadline_refuted_without_fixF8 :
-  ~ (forall s, Reach false true s -> Quiescent s -> slot s = true -> armed_of (ud s) <> None ->
+  ~ (forall s, Reach false true true s -> Quiescent s -> slot s = true -> armed_of (ud s) <> None ->
                exists i, hnd s = Some i /\ tm s i = TmArmed /\ now s < tdl s i).
 Proof. exact quiescent_no_deadline_refuted_without_fixF8. Qed.
 Print Assumptions C02_quiescent_no_deadline_refuted_without_fixF8.
 
 (* ---- cancel ---- *)
 
-(* PARTIAL: premise [tainted s = false] - no kernel half of an EARLIER Blocker of this coroutine, still in
-   flight, has overwritten the registration in Cancel.co (ghost [tainted], set by AStaleSetco).  Without
-   the premise the statement is false for the code as it is: C02_quiescent_no_cancel_refuted. *)
-Theorem C02_no_lost_cancel_partial :
-  forall s, ReachF s -> slot s = true -> cbit s = true -> tainted s = false ->
+(* The coroutine is in the slot and its cancel bit is set: then the kernel half has not yet passed its own
+   re-check of the cancel bit (after which it takes the coroutine back itself), or a canceller holds the slot he
+   took out of Cancel.co, or the slot is still registered there and a canceller is about to take it. *)
+Theorem C02_no_lost_cancel :
+  forall s, ReachF s -> slot s = true -> cbit s = true ->
   match kp s with
-  | KChk | KStake | KSload | KFtake | KSetco | KC3 => True
-  | KCchk | KC1 | KC2 => cco s = CThis \/ exists i, cn s i = CTake
+  | KChk | KStake | KSload | KFtake | KCchk | KC3 => True
   | _ => (exists i, cn s i = CTake) \/ (cco s = CThis /\ exists i, cn s i = CTakeCo) end.
-Proof. exact no_lost_cancel_partial. Qed.
-Print Assumptions C02_no_lost_cancel_partial.
+Proof. exact no_lost_cancel. Qed.
+Print Assumptions C02_no_lost_cancel.
 
-Theorem C02_quiescent_no_cancel_partial :
-  forall s, ReachF s -> Quiescent s -> ~ (slot s = true /\ cbit s = true /\ tainted s = false).
-Proof. exact quiescent_no_cancel_partial. Qed.
-Print Assumptions C02_quiescent_no_cancel_partial.
+(* a suspended coroutine that has not been cancelled is registered with its Cancel *)
+Theorem C02_suspended_is_registered :
+  forall s, ReachF s -> slot s = true -> cbit s = false -> cco s = CThis.
+Proof. exact suspended_is_registered. Qed.
+Print Assumptions C02_suspended_is_registered.
 
-Theorem C02_park_cancelled_not_stuck_partial :
-  forall s, ReachF s -> cbit s = true -> tainted s = false -> in_park (up s) = true ->
+(* no kernel half of an earlier Blocker of the coroutine, still in flight, can register with the Cancel
+   (ghost [oldk] counts them, [tainted] records that one did) *)
+Theorem C02_no_stale_registration :
+  forall s, ReachF s -> oldk s = 0%nat /\ tainted s = false.
+Proof. exact no_stale_registration. Qed.
+Print Assumptions C02_no_stale_registration.
+
+Theorem C02_quiescent_no_cancel :
+  forall s, ReachF s -> Quiescent s -> ~ (slot s = true /\ cbit s = true).
+Proof. exact quiescent_no_cancel. Qed.
+Print Assumptions C02_quiescent_no_cancel.
+
+Theorem C02_park_cancelled_not_stuck :
+  forall s, ReachF s -> cbit s = true -> in_park (up s) = true ->
   exists a, internal a = true /\ exists s', stepF s a = Some s'.
-Proof. exact park_cancelled_not_stuck_partial. Qed.
-Print Assumptions C02_park_cancelled_not_stuck_partial.
+Proof. exact park_cancelled_not_stuck. Qed.
+Print Assumptions C02_park_cancelled_not_stuck.
 
-(* the code as it is loses a cancel after a stale set_co (potential defect, replayed on the real code) *)
-Theorem C02_quiescent_no_cancel_refuted :
-  ~ (forall s, ReachF s -> Quiescent s -> ~ (slot s = true /\ cbit s = true)).
-Proof. exact quiescent_no_cancel_refuted. Qed.
-Print Assumptions C02_quiescent_no_cancel_refuted.
+(* before the repair of F31 (set_co after the publication, re-check by Cancel::cancel: [step true true false])
+   a cancel is lost after a stale set_co *)
+Theorem C02_quiescent_no_cancel_refuted_without_fixF31 :
+  ~ (forall s, Reach true true false s -> Quiescent s -> ~ (slot s = true /\ cbit s = true)).
+Proof. exact quiescent_no_cancel_refuted_without_fixF31. Qed.
+Print Assumptions C02_quiescent_no_cancel_refuted_without_fixF31.
 
 (* ================================================================================================ *)
 (* (iii) unpark before park                                                                         *)
@@ -226,7 +239,7 @@ Print Assumptions C02_token_first_never_suspends.
 (* it returns Ok within two accesses of its own, having consumed the token *)
 Theorem C02_token_first_returns_ok :
   forall s, ReachF s -> tok0 s = true -> in_park (up s) = true ->
-  exists n s', (n <= 2)%nat /\ run true true s (repeat AU n) = Some s' /\
+  exists n s', (n <= 2)%nat /\ run true true true s (repeat AU n) = Some s' /\
                up s' = UIdle /\ lastv s' = Some VOk /\ susp s' = false /\ pstate s' = false.
 Proof. exact token_first_returns_ok. Qed.
 Print Assumptions C02_token_first_returns_ok.
@@ -349,7 +362,7 @@ Proof. exact drop_never_blocked. Qed.
 Print Assumptions C02_drop_never_blocked.
 
 Theorem C02_drop_never_blocked_refuted_without_fixF12 :
-  ~ (forall s, Reach true false s -> dropping s = true -> wk s = true -> exists s', step true false s AK = Some s').
+  ~ (forall s, Reach true false true s -> dropping s = true -> wk s = true -> exists s', step true false true s AK = Some s').
 Proof. exact drop_never_blocked_refuted_without_fixF12. Qed.
 Print Assumptions C02_drop_never_blocked_refuted_without_fixF12.
 
@@ -423,9 +436,13 @@ Example C02_ex_deadline_passed :
 Proof. exact ex_deadline_passed. Qed.
 
 Example C02_ex_cancel_pending :
-  exists s, ReachF s /\ slot s = true /\ cbit s = true /\ tainted s = false /\ kp s = KIdle /\
+  exists s, ReachF s /\ slot s = true /\ cbit s = true /\ kp s = KIdle /\
             cco s = CThis /\ cn s 0%nat = CTakeCo.
 Proof. exact ex_cancel_pending. Qed.
+
+Example C02_ex_cancel_kernel :
+  exists s, ReachF s /\ slot s = true /\ cbit s = true /\ kp s = KCchk /\ cco s = CNone /\ forall i, cn s i = CIdle.
+Proof. exact ex_cancel_kernel. Qed.
 
 Example C02_ex_token_first : exists s, ReachF s /\ tok0 s = true /\ in_park (up s) = true.
 Proof. exact ex_token_first. Qed.
@@ -453,18 +470,18 @@ Example C02_ex_spurious_timeout_on_shared_park :
             exists s', park_returns s s' VTimeout.
 Proof. exact spurious_timeout_on_shared_park. Qed.
 
-(* the lost time-out before the repair of F8, the blocked drop before the repair of F12, and the cancel
-   lost by the code as it is: concrete reachable states *)
+(* the lost time-out before the repair of F8, the blocked drop before the repair of F12, the lost cancel
+   before the repair of F31: concrete reachable states of the three variants *)
 Example C02_ex_lost_timeout_without_fixF8 :
-  exists s, Reach false true s /\ Quiescent s /\ slot s = true /\ armed_of (ud s) <> None /\
+  exists s, Reach false true true s /\ Quiescent s /\ slot s = true /\ armed_of (ud s) <> None /\
             exists i, hnd s = Some i /\ tm s i = TmDone /\ tdl s i < now s.
 Proof. exact lost_timeout_without_fixF8. Qed.
 
 Example C02_ex_drop_blocked_without_fixF12 :
-  exists s, Reach true false s /\ dropping s = true /\ wk s = true /\
-            step true false s AK = None /\ step true false s ADrop = Some s /\ up s = UDead.
+  exists s, Reach true false true s /\ dropping s = true /\ wk s = true /\
+            step true false true s AK = None /\ step true false true s ADrop = Some s /\ up s = UDead.
 Proof. exact drop_blocked_without_fixF12. Qed.
 
-Example C02_ex_cancel_lost_after_stale_set_co :
-  exists s, ReachF s /\ Quiescent s /\ slot s = true /\ cbit s = true /\ tainted s = true /\ ccheck s = true.
-Proof. exact cancel_lost_after_stale_set_co. Qed.
+Example C02_ex_cancel_lost_after_stale_set_co_without_fixF31 :
+  exists s, Reach true true false s /\ Quiescent s /\ slot s = true /\ cbit s = true /\ tainted s = true /\ ccheck s = true.
+Proof. exact cancel_lost_after_stale_set_co_without_fixF31. Qed.
